@@ -55,6 +55,8 @@ def main():
         out = r.stdout + r.stderr
         viol = [ln for ln in out.splitlines() if "violation in" in ln or ln.startswith("VIOLATION")]
         status = {0: "SURVIVED", 1: "KILLED"}.get(r.returncode, f"HARNESS({r.returncode})")
+        if r.returncode == 1 and not any(ln.startswith("VIOLATION") for ln in out.splitlines()):
+            status = "HARNESS(1: no VIOLATION line)"
         print(f"{status} {a.prop} {a.file}: {a.old!r} -> {a.new!r} [{wall:.0f}s]")
         for ln in viol[:4]:
             print("   ", ln[:300])
